@@ -19,7 +19,8 @@ inductive Integrity
 
 /-- `_validate_integrity` (connection.py l.476-524).  `msg[8]` raises TagNotFoundError when absent: that
 escapes `_process_message` (the call is outside its `try`).  A non-numeric MsgSeqNum is an integrity
-defect with its own reason (fix 10275ed).  `validate_comp_ids(msg[49], msg[56])` compares our *target* with the frame's
+defect with its own reason (fix 10275ed).  Too low = below `next_num_in`, except for a SequenceReset
+and except for a PossDupFlag=Y frame while RESENDREQ_AWAITING (fix 1c8bf2b).  `validate_comp_ids(msg[49], msg[56])` compares our *target* with the frame's
 SenderCompID(49) and our *sender* with its TargetCompID(56) (session.py l.60-73). -/
 def validateIntegrity (m : Msg) : M Integrity := do
   let c ← M.get
@@ -38,7 +39,8 @@ def validateIntegrity (m : Msg) : M Integrity := do
       match pyInt v with
       | none => pure (.reason "MsgSeqNum(34) is not a number")
       | some n =>
-        if n < c.sess.nextIn && !(m.mtype == mSequenceReset) && !(c.state == st_RESENDREQ_AWAITING) then
+        if n < c.sess.nextIn && !(m.mtype == mSequenceReset)
+            && !(c.state == st_RESENDREQ_AWAITING && (m.get? tPossDupFlag).getD "N" == "Y") then
           pure (.reason ("MsgSeqNum is too low, expected " ++ pyStr c.sess.nextIn ++ ", got " ++ pyStr n))
         else pure .good
 
